@@ -185,6 +185,5 @@ def run(tier):
 
 
 def replay(path):
-    with open(path) as fp:
-        print(fp.read()[:4000])
-    return 0
+    from vlib import phys_common
+    return phys_common.replay_record(path, "SignSupportTrace", "SignSupportTrace.cfg")
